@@ -86,6 +86,18 @@ def ast_amts(a, out=None):
     return out
 
 
+def ast_terms(a):
+    """additive terms of a rate after distributing a quotient over a sum in its numerator:
+    K1+K2 -> [K1, K2]; (CL+Q)/V -> [CL/V, Q/V]; CL/V + Q/V2 -> [CL/V, Q/V2]; anything else is one term.
+    Returned as rendered text (the generator emits products/quotients in one fixed operand order)."""
+    op = a[0]
+    if op == 'add':
+        return ast_terms(a[1]) + ast_terms(a[2])
+    if op == 'div' and a[1][0] == 'add':
+        return [t for x in a[1][1:] for t in ast_terms(['div', x, a[2]])]
+    return [ast_render(a)]
+
+
 def ast_render(a):
     op = a[0]
     if op == 'sym':
